@@ -44,6 +44,9 @@ pub fn files() -> Vec<FileEntry> {
 }
 
 pub const EDITS: [&str; 7] = ["delete line", "duplicate line", "remove block", "rename reference", "number -> text", "number -> out-of-range value", "truncate"];
+/// what a quoted reference is renamed to: a name nothing defines, a name that takes the air-gap path of the
+/// layer reader with a multi-byte character five bytes from its end, vertex-like and location-like names, nothing
+pub const RENAMES: [&str; 6] = ["ZZ_no_existe", "Cámara de aire ñ1 cm", "V0", "V99999999999999999999", "SPACE-", ""];
 pub const OUT_OF_RANGE: [&str; 10] = ["0", "-1", "13", "99999", "1e39", "-1e39", "1e-46", "nan", "inf", "4294967296"];
 
 /// byte range of the first numeric token in s[from..]
@@ -104,7 +107,7 @@ pub fn damage(text: &str, line: usize, edit: usize, variant: usize) -> Option<St
             if b == a + 1 {
                 return None;
             }
-            Some(replaced(format!("{}\"ZZ_no_existe\"{}", &l[..a], &l[b + 1..])))
+            Some(replaced(format!("{}\"{}\"{}", &l[..a], RENAMES[variant % RENAMES.len()], &l[b + 1..])))
         }
         4 => {
             let (a, b) = first_number(l, value_from)?;
@@ -315,7 +318,14 @@ pub fn run(a: &Args) -> Batch {
         for (fi, n) in nlines.iter().enumerate() {
             for l in 0..*n {
                 for e in 0..EDITS.len() {
-                    jobs.push((fi, l, e, l));
+                    if e == 3 {
+                        // every replacement name on every line that holds a quoted reference
+                        for v in 0..RENAMES.len() {
+                            jobs.push((fi, l, e, v));
+                        }
+                    } else {
+                        jobs.push((fi, l, e, l));
+                    }
                 }
             }
         }
@@ -338,11 +348,11 @@ pub fn run(a: &Args) -> Batch {
                 by_key.entry((f.kind, key)).or_default().push((fi, li));
             }
         }
-        let per_key = (a.n / 2 / (by_key.len().max(1) * (EDITS.len() + OUT_OF_RANGE.len()))).max(1);
+        let per_key = (a.n / 2 / (by_key.len().max(1) * (EDITS.len() + OUT_OF_RANGE.len() + RENAMES.len()))).max(1);
         for (_, lines) in by_key.iter() {
             for _ in 0..per_key {
                 for e in 0..EDITS.len() {
-                    let variants = if e == 5 { OUT_OF_RANGE.len() } else { 1 };
+                    let variants = if e == 5 { OUT_OF_RANGE.len() } else if e == 3 { RENAMES.len() } else { 1 };
                     for v in 0..variants {
                         let (fi, l) = *r.pick(lines);
                         if damage(&fs[fi].text, l, e, v).is_some() {
@@ -414,7 +424,7 @@ pub fn run(a: &Args) -> Batch {
         let dl: String = damaged.split_inclusive('\n').nth(j.1).unwrap_or("").chars().take(160).collect();
         let orig: String = fs[j.0].text.split_inclusive('\n').nth(j.1).unwrap_or("").chars().take(160).collect();
         impl_findings.push(json!({"kind": "crash_on_damaged_file", "site": site, "message": msg, "times": n, "file": fs[j.0].name, "line": j.1 + 1, "edit": EDITS[j.2],
-            "value": if j.2 == 5 { OUT_OF_RANGE[(j.3 % 1000) % 16 % OUT_OF_RANGE.len()] } else { "" }, "second_edit": j.3 >= 1000, "original_line": orig, "damaged_line": dl,
+            "value": if j.2 == 5 { OUT_OF_RANGE[(j.3 % 1000) % 16 % OUT_OF_RANGE.len()] } else if j.2 == 3 { RENAMES[(j.3 % 1000) % 16 % RENAMES.len()] } else { "" }, "second_edit": j.3 >= 1000, "original_line": orig, "damaged_line": dl,
             "job": [j.0, j.1, j.2, j.3], "classes": [format!("crash_site:{}", site)]}));
     }
     // ---------- Coq: the block parser model on damaged BDL texts ----------
